@@ -68,10 +68,10 @@ func (api *HTTP) handlePostMessage(w http.ResponseWriter, r *http.Request, sessi
 		remoteAddr = host
 	}
 
-	// IRC messages are separated by the newline character, so ensure the
-	// message does not contain any newlines.
+	// IRC messages are separated by CR LF and must not contain NUL, so cut
+	// the message at the first such byte.
 	data := req.Data
-	if idx := strings.IndexByte(data, '\n'); idx > -1 {
+	if idx := strings.IndexAny(data, "\r\n\x00"); idx > -1 {
 		data = data[:idx]
 	}
 	msg := &robust.Message{
